@@ -156,10 +156,10 @@ P['C13'] = dict(
 _caps = 'harness/w_caps.cpp'
 P['C15'] = dict(
     level_text='On the real mqtt_client holding a CONNACK whose capability properties are absent or all present with symbolic values (Maximum Packet Size 16..64, Maximum QoS, Retain Available, Topic Alias Maximum over all 16 bits, wildcard / shared / subscription-identifier availability): one publish (any QoS, RETAIN, optional symbolic Topic Alias, payload sized below / around / above the limit), one subscribe (plain, wildcard, shared, shared+wildcard filters, optional Subscription Identifier, one or two topics) or one DISCONNECT with a short or long Reason String. A reference model of the capability rules decides what must happen: a violating request completes at once with one of the documented codes of the violated capabilities, nothing is written and no packet identifier stays consumed (the next QoS 1 publish gets id 1); otherwise the packet found on the wire respects every announced limit (size measured on the wire); an oversized DISCONNECT is re-encoded without properties.',
-    level_note='Bounds: one request per run; packet sizes up to ~60 bytes. Only the capabilities named in the statement.',
+    level_note='Bounds: one request per run; packet sizes up to ~60 bytes. Only the capabilities named in the statement. The client is run with and without limits of its own in CONNECT (symbolic Topic Alias Maximum, Receive Maximum, Maximum Packet Size 16..64): they bind the broker and must not change what the client may send.',
     assumptions=_pub_assume[:2],
-    jobs=[dict(name='publish_caps', tu=_caps, entry='h_caps_publish', engine='B', clock=True, reach=['rejected-size', 'rejected-qos', 'rejected-retain', 'rejected-alias', 'accepted'], samples=10),
-          dict(name='subscribe_caps', tu=_caps, entry='h_caps_subscribe', engine='B', clock=True, reach=['rejected-shared', 'rejected-wildcard', 'rejected-subid', 'accepted'], samples=10),
+    jobs=[dict(name='publish_caps', tu=_caps, entry='h_caps_publish', engine='B', clock=True, reach=['rejected-size', 'rejected-qos', 'rejected-retain', 'rejected-alias', 'accepted', 'own-limits-configured'], samples=10),
+          dict(name='subscribe_caps', tu=_caps, entry='h_caps_subscribe', engine='B', clock=True, reach=['rejected-shared', 'rejected-wildcard', 'rejected-subid', 'accepted', 'own-limits-configured'], samples=10),
           dict(name='disconnect_caps', tu=_caps, entry='h_caps_disconnect', engine='B', clock=True, reach=['kept-properties', 'dropped-properties'], samples=6)])
 P['C16']['jobs'] += [dict(name='request_validation', tu=_caps, entry='h_req_validation', engine='B', clock=True,
                           reach=['subscription-identifier', 'utf8-payload', 'user-property', 'response-topic', 'content-type', 'empty-topic', 'reason-string', 'unsubscribe-filter', 'accepted', 'rejected'], samples=10)]
